@@ -47,7 +47,7 @@ def fnm0 (name pat : String) : Bool := pat == "*" || name == pat
 def fnmX : Ext := fun f args =>
   match f, args with
   | "fnmatch", [.str n, .str p] => .ok (.bool (fnm0 n p))
-  | "PatternFilter", [v] => .ok (.record [("_patterns", v)])
+  | "PatternFilter(patterns=)", [v] => .ok (.record [("_patterns", v)])
   | _, _ => .stuck
 theorem fnmX_ok : FnmatchIs fnmX fnm0 := fun _ _ => rfl
 theorem fnmX_ctor : PatternFilterCtor fnmX := fun _ => rfl
@@ -64,7 +64,7 @@ def readAsX (split : String → Option (String × String)) : Ext := fun f args =
     (match split a with
      | some rp => .ok (.list [.str rp.1, .str rp.2])
      | none => .raise "IOError")
-  | "PatternFilter", [v] => .ok (.record [("_patterns", v)])
+  | "PatternFilter(patterns=)", [v] => .ok (.record [("_patterns", v)])
   | "FileTypeMap", [] => .ok (ftMapVal [])
   | "FileTypeMap(mapping=)", [v] => .ok (.record [("_mapping", v)])
   | _, _ => .stuck
